@@ -1,4 +1,460 @@
 package main
 
-// microMain: generated micro-kernels on whole platforms were not built (see docs/C02.md).
-func microMain() { panic("c02 micro: not implemented") }
+import (
+	"crypto/sha256"
+	"debug/elf"
+	"encoding/hex"
+	"flag"
+	"fmt"
+	"os"
+	"sort"
+	"strings"
+	"sync"
+
+	"github.com/sarchlab/akita/v4/sim"
+	"github.com/sarchlab/akita/v4/simulation"
+	"github.com/sarchlab/akita/v4/tracing"
+	"github.com/sarchlab/mgpusim/v4/amd/arch"
+	"github.com/sarchlab/mgpusim/v4/amd/driver"
+	"github.com/sarchlab/mgpusim/v4/amd/emu"
+	"github.com/sarchlab/mgpusim/v4/amd/insts"
+	"github.com/sarchlab/mgpusim/v4/amd/kernels"
+	"github.com/sarchlab/mgpusim/v4/amd/samples/runner/emusystem"
+	"github.com/sarchlab/mgpusim/v4/amd/samples/runner/timingconfig"
+	"github.com/sarchlab/mgpusim/v4/amd/sampling"
+	"github.com/sarchlab/mgpusim/v4/amd/timing/cu"
+	"github.com/sarchlab/mgpusim/v4/amd/timing/wavefront"
+
+	"verifharness/vh"
+)
+
+// ---------------------------------------------------------------- assembler
+// Hand encodings of the GCN3 (VI) instruction formats; every kernel is decoded
+// again with the repository's disassembler before it is run.
+
+const (
+	srcVCCLO = 106
+)
+
+func sgpr(n int) int  { return n }
+func vsrc(n int) int  { return 256 + n }
+func konst(k int) int { // inline integer constant -16..64
+	if k >= 0 {
+		return 128 + k
+	}
+	return 192 - k
+}
+
+type asm struct{ w []uint32 }
+
+func (a *asm) pc() int              { return 4 * len(a.w) }
+func (a *asm) emit(ws ...uint32)    { a.w = append(a.w, ws...) }
+func (a *asm) sop2(op, d, s0, s1 int) { a.emit(0x80000000 | uint32(op)<<23 | uint32(d)<<16 | uint32(s1)<<8 | uint32(s0)) }
+func (a *asm) sop1(op, d, s0 int)   { a.emit(0xBE800000 | uint32(d)<<16 | uint32(op)<<8 | uint32(s0)) }
+func (a *asm) sopc(op, s0, s1 int)  { a.emit(0xBF000000 | uint32(op)<<16 | uint32(s1)<<8 | uint32(s0)) }
+func (a *asm) sopp(op, imm int)     { a.emit(0xBF800000 | uint32(op)<<16 | uint32(uint16(imm))) }
+func (a *asm) sopk(op, d, imm int)  { a.emit(0xB0000000 | uint32(op)<<23 | uint32(d)<<16 | uint32(uint16(imm))) }
+func (a *asm) smemLoad(op, sdata, sbase, off int) {
+	a.emit(0xC0000000|uint32(op)<<18|1<<17|uint32(sdata)<<6|uint32(sbase>>1), uint32(off))
+}
+func (a *asm) vop2(op, d, s0, v1 int) { a.emit(uint32(op)<<25 | uint32(d)<<17 | uint32(v1)<<9 | uint32(s0)) }
+func (a *asm) vop1(op, d, s0 int)    { a.emit(0x7E000000 | uint32(d)<<17 | uint32(op)<<9 | uint32(s0)) }
+func (a *asm) vopc(op, s0, v1 int)   { a.emit(0x7C000000 | uint32(op)<<17 | uint32(v1)<<9 | uint32(s0)) }
+func (a *asm) flat(op, addr, data, dst int) {
+	a.emit(0xDC000000|uint32(op)<<18, uint32(addr)|uint32(data)<<8|0x7F<<16|uint32(dst)<<24)
+}
+func (a *asm) ds(op, addr, data0, dst, off int) {
+	a.emit(0xD8000000|uint32(op)<<17|uint32(off), uint32(addr)|uint32(data0)<<8|uint32(dst)<<24)
+}
+
+const (
+	wAll  = 0x0000
+	wVM0  = 0x0F70
+	wLGK0 = 0x007F
+)
+
+func (a *asm) waitcnt(x int) { a.sopp(12, x) }
+
+// ---------------------------------------------------------------- generator
+
+// MicroKernel is one generated program and its launch geometry.
+type MicroKernel struct {
+	Index    int      `json:"index"`
+	Words    []uint32 `json:"words"`
+	WGSize   int      `json:"wg_size"`
+	NumWG    int      `json:"num_wg"`
+	LDS      int      `json:"lds"`
+	Features []string `json:"features"`
+}
+
+var vTemps = []int{5, 8, 9, 10, 11}
+var sTemps = []int{12, 13, 14, 15}
+var vop2Ops = []int{8, 12, 13, 14, 15, 16, 17, 18, 19, 20, 21, 25, 26, 6}
+var sop2Ops = []int{0, 1, 12, 28, 30, 36, 6, 7, 8, 9}
+
+func pick(rng *vh.Rng, xs []int) int { return xs[rng.Intn(len(xs))] }
+
+func anyVSrc(rng *vh.Rng) int {
+	switch rng.Intn(4) {
+	case 0:
+		return sgpr(pick(rng, append([]int{2}, sTemps...)))
+	case 1:
+		return konst(rng.Intn(81) - 16)
+	default:
+		return vsrc(pick(rng, append([]int{0, 1}, vTemps...)))
+	}
+}
+
+func genOps(rng *vh.Rng, a *asm, n int) {
+	for i := 0; i < n; i++ {
+		switch rng.Intn(6) {
+		case 0:
+			s0 := sgpr(pick(rng, append([]int{2}, sTemps...)))
+			s1 := sgpr(pick(rng, sTemps))
+			if rng.Bool() {
+				s1 = konst(rng.Intn(33))
+			}
+			a.sop2(pick(rng, sop2Ops), pick(rng, sTemps), s0, s1)
+		case 1:
+			a.vop1(1, pick(rng, vTemps), anyVSrc(rng)) // v_mov_b32
+		default:
+			a.vop2(pick(rng, vop2Ops), pick(rng, vTemps), anyVSrc(rng), pick(rng, append([]int{0, 1}, vTemps...)))
+		}
+	}
+}
+
+// addr64 computes v[lo:lo+1] = s[base:base+1] + v2 (byte offset of the work-item).
+func addr64(a *asm, lo, base int) {
+	a.vop1(1, lo+1, sgpr(base+1))            // v_mov_b32 hi, s[base+1]
+	a.vop2(25, lo, sgpr(base), 2)             // v_add_u32 lo, vcc, s[base], v2
+	a.vop2(28, lo+1, konst(0), lo+1)          // v_addc_u32 hi, vcc, 0, hi, vcc
+}
+
+func log2(n int) int {
+	k := 0
+	for 1<<uint(k+1) <= n {
+		k++
+	}
+	return k
+}
+
+func genMicro(rng *vh.Rng, idx int) MicroKernel {
+	k := MicroKernel{Index: idx, Features: []string{}}
+	k.WGSize = []int{64, 64, 128, 256, 96, 192}[rng.Intn(6)]
+	k.NumWG = []int{1, 2, 3, 5, 8}[rng.Intn(5)]
+	feat := map[string]bool{
+		"loop": rng.Intn(2) == 0, "lds": rng.Intn(3) == 0, "in2": rng.Intn(2) == 0,
+		"sload": rng.Intn(3) == 0, "cndmask": rng.Intn(3) == 0, "late-wait": rng.Intn(2) == 0,
+		"x2": rng.Intn(4) == 0, "diverge": rng.Intn(3) == 0, "wg-dependent-trip": rng.Intn(2) == 0,
+	}
+	a := &asm{}
+	// s[4:5]=in s[6:7]=in2 s[8:9]=out s[10:11]=out2
+	a.smemLoad(3, 4, 0, 0) // s_load_dwordx8 s[4:11], s[0:1], 0
+	a.waitcnt(wLGK0)
+	// s3 = wg id * wg size (s_mul_i32 with an inline constant or s17 for sizes > 64)
+	a.sopk(0, 17, k.WGSize) // s_movk_i32 s17, wgsize
+	a.sop2(36, 3, sgpr(2), sgpr(17))
+	a.vop2(25, 1, sgpr(3), 0) // v1 = gid
+	a.vop2(18, 2, konst(2), 1) // v2 = gid*4
+	addr64(a, 3, 4)
+	addr64(a, 6, 8)
+	addr64(a, 13, 6)
+	addr64(a, 15, 10)
+	a.flat(20, 3, 0, 5) // flat_load_dword v5, v[3:4]
+	for i, s := range sTemps {
+		a.sop1(0, s, konst(3*i+1)) // s_mov_b32
+	}
+	a.vop1(1, 8, vsrc(0))
+	a.vop1(1, 9, vsrc(1))
+	a.vop1(1, 10, konst(7))
+	a.vop1(1, 11, sgpr(2))
+	if feat["in2"] {
+		a.flat(20, 13, 0, 9) // flat_load_dword v9, v[13:14]
+	}
+	if feat["sload"] {
+		a.smemLoad(0, 13, 6, 4*rng.Intn(16)) // s_load_dword s13, s[6:7], imm
+	}
+	if feat["late-wait"] {
+		// independent work between the loads and the wait
+		for i := 0; i < 2+rng.Intn(4); i++ {
+			a.vop2(pick(rng, vop2Ops), pick(rng, []int{10, 11}), konst(rng.Intn(40)), pick(rng, []int{0, 1, 10, 11}))
+		}
+	}
+	a.waitcnt(wAll)
+	if feat["x2"] {
+		// reload the own element as the low half of a dwordx2 (covers the x2 write-back)
+		a.flat(21, 3, 0, 18) // flat_load_dwordx2 v[18:19], v[3:4]  (in has one spare dword at the end)
+		a.waitcnt(wVM0)
+		a.vop2(21, 5, vsrc(18), 5)
+		a.vop2(20, 8, vsrc(19), 8)
+	}
+	genOps(rng, a, 2+rng.Intn(8))
+	if feat["loop"] {
+		a.sop1(0, 16, konst(1+rng.Intn(6))) // s_mov_b32 s16, n
+		if feat["wg-dependent-trip"] {
+			a.sop2(12, 16, sgpr(2), konst(3))  // s_and_b32 s16, s2, 3
+			a.sop2(0, 16, sgpr(16), konst(1)) // s_add_u32 s16, s16, 1
+		}
+		top := a.pc()
+		genOps(rng, a, 1+rng.Intn(6))
+		a.sop2(1, 16, sgpr(16), konst(1)) // s_sub_u32 s16, s16, 1
+		a.sopc(7, sgpr(16), konst(0))     // s_cmp_lg_u32 s16, 0
+		a.sopp(5, (top-(a.pc()+4))/4)     // s_cbranch_scc1 top
+	}
+	if feat["cndmask"] {
+		a.vopc(0xC9+rng.Intn(6), konst(rng.Intn(64)), pick(rng, []int{0, 1, 8})) // v_cmp_*_u32 vcc, k, v
+		a.vop2(0, 5, vsrc(5), pick(rng, []int{8, 9, 10}))                          // v_cndmask_b32 v5, v5, v, vcc
+	}
+	if feat["diverge"] {
+		a.vopc(0xC9+rng.Intn(6), konst(rng.Intn(64)), pick(rng, []int{0, 1})) // v_cmp_*_u32 vcc, k, v
+		a.sop1(32, 20, srcVCCLO)                                            // s_and_saveexec_b64 s[20:21], vcc
+		for i := 0; i < 1+rng.Intn(4); i++ {
+			a.vop2(pick(rng, vop2Ops), pick(rng, vTemps), anyVSrc(rng), pick(rng, append([]int{0, 1}, vTemps...)))
+		}
+		if rng.Bool() {
+			a.flat(28, 15, 8, 0) // flat_store_dword v[15:16], v8 under the partial mask (overwritten for all lanes below)
+			a.waitcnt(wVM0)
+		}
+		a.sop1(1, 126, sgpr(20)) // s_mov_b64 exec, s[20:21]
+	}
+	if feat["lds"] {
+		mask := 1<<uint(log2(k.WGSize)) - 1
+		k.LDS = 4 * k.WGSize
+		a.vop2(18, 12, konst(2), 0) // v12 = tid*4
+		a.ds(13, 12, 5, 0, 0)       // ds_write_b32 v12, v5
+		a.waitcnt(wLGK0)
+		a.sopp(10, 0) // s_barrier
+		a.sopk(0, 18, mask)
+		a.vop2(25, 12, konst(1+rng.Intn(63)), 0) // v12 = tid + k
+		a.vop2(19, 12, sgpr(18), 12)             // v12 &= mask
+		a.vop2(18, 12, konst(2), 12)
+		a.ds(54, 12, 0, 8, 0) // ds_read_b32 v8, v12
+		a.waitcnt(wLGK0)
+		a.vop2(21, 5, vsrc(8), 5) // v5 ^= v8
+	}
+	genOps(rng, a, rng.Intn(4))
+	// fold the temporaries (and through them the scalar ones) into the two stored values
+	a.vop2(21, 5, vsrc(8), 5)             // v5 ^= v8
+	a.vop2(25, 5, vsrc(10), 5)            // v5 += v10
+	a.vop2(21, 9, vsrc(11), 9)            // v9 ^= v11
+	a.vop2(25, 9, sgpr(pick(rng, sTemps)), 9) // v9 += s
+	a.flat(28, 6, 5, 0)  // flat_store_dword v[6:7], v5
+	a.flat(28, 15, 9, 0) // flat_store_dword v[15:16], v9
+	if rng.Bool() {
+		a.waitcnt(wAll)
+	}
+	a.sopp(1, 0) // s_endpgm
+	k.Words = a.w
+	for f, on := range feat {
+		if on {
+			k.Features = append(k.Features, f)
+		}
+	}
+	sort.Strings(k.Features)
+	return k
+}
+
+func (k *MicroKernel) bytes() []byte {
+	b := make([]byte, 4*len(k.Words))
+	for i, w := range k.Words {
+		put32(b[4*i:], w)
+	}
+	return b
+}
+
+func (k *MicroKernel) codeObject() *insts.KernelCodeObject {
+	data := k.bytes()
+	// every word must decode
+	d := insts.NewDisassembler()
+	for off := 0; off < len(data); {
+		buf := data[off:]
+		if len(buf) < 8 {
+			buf = append(append([]byte{}, buf...), 0, 0, 0, 0)
+		}
+		inst, err := d.Decode(buf)
+		if err != nil {
+			panic(fmt.Sprintf("micro kernel %d: word at %d does not decode: %v", k.Index, off, err))
+		}
+		off += inst.ByteSize
+	}
+	meta := &insts.KernelCodeObjectMeta{
+		ComputePgmRsrc2:             1 << 7,
+		KernargSegmentByteSize:      32,
+		GroupSegmentByteSize:        uint32(k.LDS),
+		EnableSgprKernargSegmentPtr: true,
+		WFSgprCount:                 24,
+		WIVgprCount:                 24,
+	}
+	return &insts.KernelCodeObject{KernelCodeObjectMeta: meta, Data: data, Version: insts.CodeObjectV3,
+		Symbol: &elf.Symbol{Name: fmt.Sprintf("micro%d", k.Index), Size: uint64(len(data))}}
+}
+
+// MicroArgs is the kernel-argument segment of every micro-kernel.
+type MicroArgs struct {
+	In, In2, Out, Out2 driver.Ptr
+}
+
+// MicroResult is what one platform did with one kernel.
+type MicroResult struct {
+	MicroKernel
+	Out    []uint32          `json:"out"`
+	Out2   []uint32          `json:"out2"`
+	Traces map[string]string `json:"traces"` // wavefront -> "count:sha256 of the executed instruction texts"
+}
+
+type wfTrace struct {
+	mu    sync.Mutex
+	texts map[string][]string
+	cos   map[*insts.KernelCodeObject]int
+	pr    *insts.InstPrinter
+}
+
+func (t *wfTrace) add(kwf *kernels.Wavefront, inst *insts.Inst) {
+	t.mu.Lock()
+	defer t.mu.Unlock()
+	idx, ok := t.cos[kwf.CodeObject]
+	if !ok {
+		return
+	}
+	key := fmt.Sprintf("k%d/wg%d/wi%d", idx, kwf.WG.IDX, kwf.FirstWiFlatID)
+	t.texts[key] = append(t.texts[key], t.pr.Print(inst))
+}
+
+// emu: instruction hook of emu.ComputeUnit
+func (t *wfTrace) Func(ctx sim.HookCtx) {
+	wf, ok := ctx.Item.(*emu.Wavefront)
+	if !ok {
+		return
+	}
+	inst, ok := ctx.Detail.(*insts.Inst)
+	if !ok {
+		return
+	}
+	t.add(wf.Wavefront, inst)
+}
+
+// timing: tracing tasks of kind "inst"
+func (t *wfTrace) StartTask(task tracing.Task) {
+	if task.Kind != "inst" {
+		return
+	}
+	m, ok := task.Detail.(map[string]interface{})
+	if !ok {
+		return
+	}
+	inst, ok1 := m["inst"].(*wavefront.Inst)
+	wf, ok2 := m["wf"].(*wavefront.Wavefront)
+	if ok1 && ok2 {
+		t.add(wf.Wavefront, inst.Inst)
+	}
+}
+func (t *wfTrace) StepTask(task tracing.Task)         {}
+func (t *wfTrace) AddMilestone(m tracing.Milestone) {}
+func (t *wfTrace) EndTask(task tracing.Task)          {}
+
+func microMain() {
+	seed := flag.Uint64("seed", 1, "seed")
+	n := flag.Int("n", 20, "number of kernels")
+	only := flag.Int("only", -1, "run only the kernel with this index")
+	platform := flag.String("platform", "emu", "emu | r9nano | mi300a")
+	out := flag.String("out", "", "result JSON")
+	dump := flag.Bool("print", false, "print the disassembly of the kernels and exit")
+	flag.Parse()
+
+	rng := vh.NewRng(*seed)
+	var ks []MicroKernel
+	for i := 0; i < *n; i++ {
+		k := genMicro(rng.Fork(), i)
+		if *only < 0 || *only == i {
+			ks = append(ks, k)
+		}
+	}
+	if *dump {
+		d := insts.NewDisassembler()
+		pr := insts.NewInstPrinter(nil)
+		for _, k := range ks {
+			fmt.Printf("kernel %d wg=%d x %d lds=%d %v\n", k.Index, k.WGSize, k.NumWG, k.LDS, k.Features)
+			data := append(k.bytes(), 0, 0, 0, 0)
+			for off := 0; off < 4*len(k.Words); {
+				inst, err := d.Decode(data[off:])
+				if err != nil {
+					panic(err)
+				}
+				fmt.Printf("  %04x  %s\n", off, pr.Print(inst))
+				off += inst.ByteSize
+			}
+		}
+		return
+	}
+
+	s := simulation.MakeBuilder().WithoutMonitoring().Build()
+	if *platform == "emu" {
+		emusystem.MakeBuilder().WithSimulation(s).WithNumGPUs(1).WithArchitecture(arch.GCN3).Build()
+	} else {
+		sampling.InitSampledEngine()
+		timingconfig.MakeBuilder().WithSimulation(s).WithNumGPUs(1).WithGPUType(*platform).Build()
+	}
+	tr := &wfTrace{texts: map[string][]string{}, cos: map[*insts.KernelCodeObject]int{}, pr: insts.NewInstPrinter(nil)}
+	for _, c := range s.Components() {
+		switch c := c.(type) {
+		case *emu.ComputeUnit:
+			c.AcceptHook(tr)
+		case *cu.ComputeUnit:
+			tracing.CollectTrace(c, tr)
+		}
+	}
+	d := s.GetComponentByName("Driver").(*driver.Driver)
+	d.Run()
+	ctx := d.Init()
+	d.SelectGPU(ctx, 1)
+
+	var res []MicroResult
+	for _, k := range ks {
+		k := k
+		co := k.codeObject()
+		tr.mu.Lock()
+		tr.cos[co] = k.Index
+		tr.mu.Unlock()
+		total := k.WGSize * k.NumWG
+		in := make([]uint32, total+1)
+		in2 := make([]uint32, total+16)
+		x := uint32(k.Index*7919 + 17)
+		for i := range in {
+			x = x*1664525 + 1013904223
+			in[i] = x
+		}
+		for i := range in2 {
+			x = x*1664525 + 1013904223
+			in2[i] = x >> 3
+		}
+		dIn := d.AllocateMemory(ctx, uint64(4*len(in)))
+		dIn2 := d.AllocateMemory(ctx, uint64(4*len(in2)))
+		dOut := d.AllocateMemory(ctx, uint64(4*total))
+		dOut2 := d.AllocateMemory(ctx, uint64(4*total))
+		d.MemCopyH2D(ctx, dIn, in)
+		d.MemCopyH2D(ctx, dIn2, in2)
+		d.MemCopyH2D(ctx, dOut, make([]uint32, total))
+		d.MemCopyH2D(ctx, dOut2, make([]uint32, total))
+		args := MicroArgs{dIn, dIn2, dOut, dOut2}
+		d.LaunchKernel(ctx, co, [3]uint32{uint32(total), 1, 1}, [3]uint16{uint16(k.WGSize), 1, 1}, &args)
+		r := MicroResult{MicroKernel: k, Out: make([]uint32, total), Out2: make([]uint32, total), Traces: map[string]string{}}
+		d.MemCopyD2H(ctx, r.Out, dOut)
+		d.MemCopyD2H(ctx, r.Out2, dOut2)
+		res = append(res, r)
+	}
+	tr.mu.Lock()
+	for key, texts := range tr.texts {
+		h := sha256.Sum256([]byte(strings.Join(texts, "\n")))
+		var idx int
+		fmt.Sscanf(key, "k%d/", &idx)
+		for i := range res {
+			if res[i].Index == idx {
+				res[i].Traces[key] = fmt.Sprintf("%d:%s", len(texts), hex.EncodeToString(h[:8]))
+			}
+		}
+	}
+	tr.mu.Unlock()
+	writeOut(*out, res)
+	d.Terminate()
+	os.Exit(0)
+}
